@@ -18,7 +18,7 @@ def lang_context(lang, options=None, overrides=None):
 
 
 def gen_inprocess(types, root_dir, out, lang, order_seed=None, post_processors=None, templates_dir=None, options=None,
-                  support=False, overrides=None, omit_serialization_support=False, lctx=None, pre_calls=()):
+                  support=False, overrides=None, omit_serialization_support=False, lctx=None, pre_calls=(), gen_kwargs=None):
     """Generate `types` with the real DSDLCodeGenerator; returns {relative path: bytes}.
     pre_calls: keyword dictionaries of earlier generate_all() calls made on the SAME generator objects before the final one
     (history of one generator: dry runs, other per-call options); the output directory is emptied before the final call."""
@@ -34,6 +34,7 @@ def gen_inprocess(types, root_dir, out, lang, order_seed=None, post_processors=N
         kw["post_processors"] = post_processors
     if templates_dir is not None:
         kw["templates_dir"] = pathlib.Path(templates_dir)
+    kw.update(gen_kwargs or {})      # e.g. trim_blocks / lstrip_blocks / additional_filters
     g = nunavut.jinja.DSDLCodeGenerator(ns, **kw)
     s = nunavut.jinja.SupportGenerator(ns, **({"post_processors": post_processors} if post_processors is not None else {})) if support else None
     for pk in pre_calls:
